@@ -412,9 +412,9 @@ class SpecErr(Exception):
 
 class SpecExec:
     def __init__(self, quirks=False):
-        # quirks=True (used ONLY by the random generator to keep its view numbering in step with the real
-        # module) reproduces two known rejections of the code: empty backward slices whose start normalises
-        # to -1, and ifelse on a read-only source
+        # quirks (a set, used ONLY by the random generator to keep its view numbering in step with the real
+        # module) reproduces known rejections of the code as written: "slice" = empty backward slices whose
+        # start normalises to -1, "ifelse" = ifelse on a read-only source
         self.quirks = quirks
         self.reset()
 
@@ -446,7 +446,7 @@ class SpecExec:
                 return [r[idx]]
             except IndexError:
                 raise SpecErr("indexError", "IndexError")
-        if self.quirks and idx.step is not None and idx.step < 0 and idx.indices(len(v))[0] == -1:
+        if self.quirks and "slice" in self.quirks and idx.step is not None and idx.step < 0 and idx.indices(len(v))[0] == -1:
             raise SpecErr("domainError", "RuntimeError")
         try:
             return list(r[idx])
@@ -555,7 +555,7 @@ class SpecExec:
             if len(c) != len(v):
                 raise SpecErr("dimMismatch")
             a = v.tolist(); bits = c.tolist()
-            if self.quirks and not v.writable and any(bits):
+            if self.quirks and "ifelse" in self.quirks and not v.writable and any(bits):
                 raise SpecErr("readOnly")
             if op == "ifelsev":
                 o = self.ref(t[3])
